@@ -73,7 +73,8 @@ func forests(n int, f func(parent []int)) {
 	rec(0)
 }
 
-var c01Origins = []string{"gopki-earlier-run", "stdlib-printable", "utf8-nonascii", "utf8-for-printable-value", "ia5-email", "multi-valued-rdn", "teletex"}
+var c01Origins = []string{"gopki-earlier-run", "stdlib-printable", "utf8-nonascii", "utf8-for-printable-value", "ia5-email", "multi-valued-rdn", "teletex",
+	"printable-with-ampersand", "printable-with-asterisk", "bmpstring", "numeric-and-printable-mix", "empty-value", "utf8-and-printable-in-one-rdn"}
 
 func c01Enumerate(tier string, yield func(any)) {
 	maxN := 3
@@ -404,6 +405,19 @@ func c01ForeignDN(origin string) (der []byte, subject string) {
 		return refder.Seq(rdn(atv("2.5.4.3", refder.EncPrintable("Imported CA"))), rdn(atv("1.2.840.113549.1.9.1", refder.EncIA5("ca@example.com")))), "1.2.840.113549.1.9.1=ca@example.com, CN=Imported CA"
 	case "multi-valued-rdn":
 		return refder.Seq(rdn(atv("2.5.4.3", refder.EncPrintable("Imported CA")), atv("2.5.4.11", refder.EncPrintable("Unit")))), "CN=Imported CA"
+	case "printable-with-ampersand":
+		// outside the strict repertoire but common in real CA names; parsers accept it
+		return refder.Seq(rdn(atv("2.5.4.10", refder.EncPrintable("AT&T Services"))), rdn(atv("2.5.4.3", refder.EncPrintable("Imported CA")))), "CN=Imported CA, O=AT&T Services"
+	case "printable-with-asterisk":
+		return refder.Seq(rdn(atv("2.5.4.3", refder.EncPrintable("*.ca.example.com")))), "CN=*.ca.example.com"
+	case "bmpstring":
+		return refder.Seq(rdn(atv("2.5.4.3", refder.Enc(0, refder.TagBMP, false, []byte{0, 'C', 0, 'A'})))), "CN=CA"
+	case "numeric-and-printable-mix":
+		return refder.Seq(rdn(atv("2.5.4.5", refder.Enc(0, 18, false, []byte("12345")))), rdn(atv("2.5.4.3", refder.EncPrintable("Imported CA")))), "CN=Imported CA, SERIALNUMBER=12345"
+	case "empty-value":
+		return refder.Seq(rdn(atv("2.5.4.10", refder.EncUTF8(""))), rdn(atv("2.5.4.3", refder.EncPrintable("Imported CA")))), "CN=Imported CA"
+	case "utf8-and-printable-in-one-rdn":
+		return refder.Seq(rdn(atv("2.5.4.3", refder.EncUTF8("Imported CA")), atv("2.5.4.11", refder.EncPrintable("Unit")))), "CN=Imported CA"
 	case "teletex":
 		return refder.Seq(rdn(atv("2.5.4.3", refder.Enc(0, refder.TagT61, false, []byte("Imported CA"))))), "CN=Imported CA"
 	}
@@ -481,7 +495,7 @@ func init() {
 	register(&engine.Check{
 		ID:          "C01",
 		Level:       "exploration",
-		Rule:        "(a) every rooted forest on <=3 (quick) / <=4 (thorough) entities x 3 alias/directory layouts x with/without a profile adding subjectKeyIdentifier+authorityKeyIdentifier hash; (b) issuer key algorithm (14) x subject key algorithm (6 representatives quick / 14 thorough) x signature algorithm (8 + omitted) two-tier worlds with fixture keys, the 14 x 9 self-signed roots, and a three-tier chain per issuer kind x 9; (c) 54 histories on a settled 3-tier chain (delete artifact / replace by an old key-only file / strip certificate / edit subject / strip key / change key algorithm / issuer key replaced by a request + child edited / issuer key stripped + child edited + generate-changed only / issuer key stripped + child artifact deleted, on each entity, with and without key-id profile) followed by a default run, after which every certificate must verify under its issuer's current certificate; (d) issuer artifact origin {earlier gopki run, foreign certificate with PrintableString / UTF8String non-ASCII / UTF8String for a printable value / IA5String e-mail / multi-valued RDN / TeletexString}. Oracle per written certificate: signature verifies with the algorithm its signatureAlgorithm names under the SPKI of the issuer's current certificate file, issuer DN bytes = that certificate's subject DN bytes, hash key ids = SHA-1 of the respective key bits, child AKI = issuer SKI; misfit of algorithm and signing key => run fails and no certificate. non-trivial = distinct case executed",
+		Rule:        "(a) every rooted forest on <=3 (quick) / <=4 (thorough) entities x 3 alias/directory layouts x with/without a profile adding subjectKeyIdentifier+authorityKeyIdentifier hash; (b) issuer key algorithm (14) x subject key algorithm (6 representatives quick / 14 thorough) x signature algorithm (8 + omitted) two-tier worlds with fixture keys, the 14 x 9 self-signed roots, and a three-tier chain per issuer kind x 9; (c) 54 histories on a settled 3-tier chain (delete artifact / replace by an old key-only file / strip certificate / edit subject / strip key / change key algorithm / issuer key replaced by a request + child edited / issuer key stripped + child edited + generate-changed only / issuer key stripped + child artifact deleted, on each entity, with and without key-id profile) followed by a default run, after which every certificate must verify under its issuer's current certificate; (d) issuer artifact origin {earlier gopki run, foreign certificate with PrintableString / UTF8String non-ASCII / UTF8String for a printable value / IA5String e-mail / multi-valued RDN / TeletexString / PrintableString with & or * / BMPString / NumericString / empty value / mixed string types in one RDN}. Oracle per written certificate: signature verifies with the algorithm its signatureAlgorithm names under the SPKI of the issuer's current certificate file, issuer DN bytes = that certificate's subject DN bytes, hash key ids = SHA-1 of the respective key bits, child AKI = issuer SKI; misfit of algorithm and signing key => run fails and no certificate. non-trivial = distinct case executed",
 		Bound:       map[string]string{"forest size": "quick<=3 thorough<=4"},
 		Assumptions: []string{"configurations with manipulations are C19's", "Go's crypto/ecdsa, crypto/rsa and the keybase brainpool curve parameters are trusted for verification"},
 		Budget:      budgets(quickBudget, thoroughBudget),
